@@ -53,6 +53,8 @@ func (e *Expr) String() string {
 		return "<nil>"
 	}
 	switch e.Op {
+	case "strlit":
+		return "\"" + e.Val + "\""
 	case "lit", "id":
 		return e.Val
 	case "smt":
@@ -410,6 +412,8 @@ func (p *parser) primary() *Expr {
 	switch t.kind {
 	case "int":
 		return &Expr{Op: "lit", Val: t.text}
+	case "str":
+		return &Expr{Op: "strlit", Val: t.text}
 	case "id":
 		if t.text == "smt" {
 			sortS := "Bool"
